@@ -42,7 +42,7 @@ func retVals(w *World, ret *ssa.Return, i int) []ssa.Value {
 			return
 		case *ssa.Extract:
 			if call, ok := x.Tuple.(*ssa.Call); ok {
-				if callee := w.staticCallee(&call.Call); callee != nil && w.ours(callee) && callee.Parent() != nil {
+				if callee := w.staticCallee(&call.Call); callee != nil && w.ours(callee) && (callee.Parent() != nil || w.absorbable(callee)) {
 					for _, b := range callee.Blocks {
 						if len(b.Instrs) == 0 {
 							continue
